@@ -122,6 +122,7 @@ fn run(ctx: &mut Ctx) -> Verdict {
         slow_peer: false,
         ssh_setup: crate::rsim::SshSetup { auth_delay_ms, at_subsystem: None },
         abandon_close: false,
+        final_close: false,
     };
     ev!(ctx, "scenario {}/{} password {:?}", kind.name(), sc.label, password);
     let buf = Buf(Arc::default());
